@@ -333,7 +333,6 @@ static void parseQuery(void *inFrame, lltd_iface_state *st, void *iface_ctx) {
     }
 
     uint16_t num_descs = (st->see_list_count > max_descs) ? (uint16_t)max_descs : (uint16_t)st->see_list_count;
-    respH->numDescs = lltd_htons(num_descs);
     offset += sizeof(*respH);
 
     probe_t *node = st->see_list;
@@ -356,10 +355,29 @@ static void parseQuery(void *inFrame, lltd_iface_state *st, void *iface_ctx) {
         remaining--;
     }
 
+    /*
+     * Descriptor count in the low 15 bits; bit 15 (M) tells the mapper that more observations
+     * remain than fit into this frame, so that it queries again.
+     */
+    respH->numDescs = lltd_htons((uint16_t)((uint16_t)(num_descs - remaining) | (node != NULL ? 0x8000u : 0u)));
+
     (void)lltd_port_send_frame(iface_ctx, buffer, offset);
     lltd_port_free(buffer);
 
-    lltd_state_clear_seen_probes(st);
+    /* Release what has been reported; keep what did not fit for the mapper's next Query. */
+    probe_t *cur = st->see_list;
+    while (cur != NULL && cur != node) {
+        probe_t *next = (probe_t *)cur->nextProbe;
+        lltd_port_free(cur);
+        cur = next;
+        if (st->see_list_count > 0) {
+            st->see_list_count--;
+        }
+    }
+    st->see_list = node;
+    if (node == NULL) {
+        st->see_list_count = 0;
+    }
 }
 
 static void sendLargeTlvResponse(lltd_iface_state *st,
